@@ -161,6 +161,10 @@ def cases(tier):
     # the act set and the non-act set are still two sets, and the embedder's dict is not changed
     for h in bfs(3 if tier == 'quick' else 4):
         yield ('explicit',) + h
+    # the action to check under the other actors that start a process (file interpreter, source interpreter): it still gets the ACT set
+    for actor in ('actor-file', 'actor-source'):
+        for h in bfs(2 if tier == 'quick' else 3):
+            yield (actor,) + h
 
 
 def build(hist):
@@ -277,7 +281,8 @@ def run(case) -> Result:
     if case and case[0] == 'real-chdir':
         return run_real_chdir(case)
     explicit = bool(case) and case[0] == 'explicit'
-    hist = tuple(case[1:]) if explicit else tuple(case)
+    actor = case[0] if case and case[0] in ('actor-file', 'actor-source') else None
+    hist = tuple(case[1:]) if (explicit or actor) else tuple(case)
     res = Result()
     res.n = 1
     w = world.get()
@@ -291,6 +296,9 @@ def run(case) -> Result:
     seam.env_keys = ('X', 'Y')
     seam.script['valprobe'] = {'out': 'val'}
     text, exp, graph, final = build(hist)
+    if actor:
+        w.write('src.txt', 'source\n')
+        text = '[conf]\nactor = %s %% atc\n' % actor[6:] + text.replace('[act]\n% atc\n', '[act]\nsrc.txt\n' if actor == 'actor-file' else '[act]\nsome source code\n', 1)
     o = cli.run_case(text, mp=explicit_main_program()) if explicit else cli.run_case(text)
     errs = []
     if explicit and _EXPL['environ'] != _EXPL['before']:
@@ -338,7 +346,7 @@ def run(case) -> Result:
     for a, b, ei in zip(graph, graph[1:], hist):
         res.states.add(a)
         res.states.add(b)
-        res.trans.add((a, ei, b) if not explicit else ('explicit', a, ei, b))
+        res.trans.add((a, ei, b) if not (explicit or actor) else (case[0], a, ei, b))
     res.states.add(graph[0])
     if not errs:
         res.validated += 1
